@@ -119,6 +119,9 @@ def classify(f):
         return "KF-C07-eof-position-beyond-end"
     if k == "pos-outside" and e.startswith("ast.Parser") and d.startswith("Parser.Pos()") and f["truncated"] and f["pos"] <= f["len"] + 16:
         return "KF-C07-eof-position-beyond-end"
+    if (k == "pos-outside" and f["pos"] == -1 and e.startswith(("sonic.Get", "ast.Searcher")) and f["len"] >= 5
+            and bytes.fromhex(f["input_hex"]).strip(b" \t\r\n") == b""):
+        return "KF-C07-blank-input-position-minus-one"
     if k == "msg-unbounded":
         outside = not (0 <= f["pos"] < f["len"])
         if ("Syntax error at index" in f["msg"] or "Mismatch" in f["msg"]) and outside:
